@@ -9,7 +9,7 @@ Totality of `finish` (`into_array`) on well-formed builder states:
     crate; in the model `n : Nat` is unbounded)                                          — `FinB`: `n ≤ i32::MAX`
   * `UnionBuilder`: the variant index `usize → i8`                                       — `FinB`: at most 128 variants
   * `DictionaryUtf8Builder`: the placeholder `self.values.serialize_str("")` when a non-nullable keys builder holds
-    rows while the dictionary has no value.  With an integer-leaf keys builder (`FinB`; what `build_builder` now
+    rows while the dictionary has no value.  With an integer-leaf keys builder (`FinB`; what `build_builder`
     guarantees) the strict dictionary clause of `WFB` (every key designates a value) makes that branch unreachable.
 `FinB` is a property of the builder's shape only (`FinB_takeRest`), and it holds of every builder `build_builder`
 creates for a well-typed data type (`typedDT`: sizes are `i32` values, union type ids `i8` values — true of every marrow
